@@ -22,7 +22,7 @@ CONFIG = {
 }
 REQUIRED_COUNTERS = ["balances_junction_deg>=3", "balances_virtual_pi_valve_node", "global_balances",
                      "runs_gas", "runs_liquid", "runs_numba", "runs_numpy", "runs_alpha_lt_1",
-                     "runs_automatic", "runs_circulation_pump_loop", "runs_ext_grid_in_pump_loop", "transient_steps_monitored"]
+                     "runs_automatic", "runs_circulation_pump_loop", "runs_ext_grid_in_pump_loop", "runs_thermal_mode_with_thermally_unsupplied_part", "transient_steps_monitored"]
 
 FEATURE_SETS = [
     (), ("valves",), ("valves", "pi_valves", "closed"), ("pump", "compressor", "valves"),
@@ -79,9 +79,13 @@ def make(case):
             if rng.random() < 0.7:
                 spec["elements"].append({"kind": "sink", "name": "leak", "junction": str(rng.choice([j["name"] for j in spec["junctions"]])),
                                          "mdot_kg_per_s": float(rng.uniform(0.01, 0.3)), "scaling": 1.0, "in_service": True})
+        if rng.random() < 0.4:
+            # a line fed by a pressure-only grid: calculated hydraulically, no part of the thermal calculation - its reported flows
+            # must balance all the same
+            netgen.add_cold_line(spec, rng)
         netgen.relabel(spec, rng, case["labels"])
         opts = solver_configs(rng, False)
-        opts["mode"] = str(rng.choice(["hydraulics", "sequential"]))
+        opts["mode"] = str(rng.choice(["hydraulics", "sequential", "bidirectional"]))
         return spec, opts
     spec = netgen.gen_hydraulic(rng, fluid=case["fluid"], n=case["n"], features=case["features"],
                                 label_scheme=case["labels"])
@@ -135,6 +139,8 @@ def run_case(case, ctx):
         obs.count("runs_labels_" + case["labels"])
         if case.get("loop"):
             obs.count("runs_circulation_pump_loop")
+            if opts["mode"] != "hydraulics" and any(j["name"] == "c0" for j in spec["junctions"]):
+                obs.count("runs_thermal_mode_with_thermally_unsupplied_part")
             if any(e["name"] == "makeup" for e in spec["elements"]):
                 obs.count("runs_ext_grid_in_pump_loop")
         if len(net.junction) >= 300:
